@@ -4,7 +4,7 @@ import sys, os
 sys.path.insert(0, os.path.dirname(os.path.abspath(__file__)))
 from smbase import *
 import callers, sutmon, tailmon, domaha, c07
-from callers import story, mk_assume, explore_puc, decode_yield, builder_ops
+from callers import story, mk_assume, explore_puc, decode_yield, builder_ops, dval
 from smodels import mk_vec
 import smodels
 
@@ -92,7 +92,7 @@ def run(chk):
 
     CONTRACT = {}
     import runmon
-    PARTS = ['both:start_update_check', 'both:ping_omaha', 'both:exchange', 'both:tail', 'helpers', 'load'] + runmon.parts(chk.tier)
+    PARTS = ['both:start_update_check', 'both:ping_omaha', 'both:exchange', 'both:tail', 'helpers', 'load', 'delivered'] + runmon.parts(chk.tier)
     if not chk.parallel(os.path.abspath(__file__), PARTS, post_merge=runmon.post_merge):
         for nm_, fn_ in (('start_update_check', sut), ('ping_omaha', ping), ('exchange', exchange), ('tail', tail)):
             if chk.part in (None, 'both:' + nm_):
@@ -124,15 +124,73 @@ def run(chk):
         chk.extra['explored'] = explored
         if chk.want('load'):
             c07.persist_load(chk)
+            safe_json_prefix(chk)
+        if chk.want('delivered'):
+            # "every check still ends with a delivered result": on every path of start_update_check, whatever the
+            # outcome class (also request-construction errors from an unusable service URL)
+            sutmon.monitor_start_update_check(chk, (1,))
         if chk.want('run'):
             runmon.monitor_run(chk, chk.tier)       # the main loop and its start-up (stored finish time / target version arbitrary)
-    chk.obligations = [o for o in chk.obligations if o.name in ('no-panic-path', 'storage-failures-invisible', 'load-decoding', 'run-explored') or o.name.startswith('part:')]
+    chk.obligations = [o for o in chk.obligations if o.name in ('no-panic-path', 'storage-failures-invisible', 'load-decoding', 'safe-json-prefix', 'final-announcements-and-persist', 'run-explored') or o.name.startswith('part:')]
     chk.bounds.update({'apps': 1, 'header bytes': 4, 'attempt loop unrolling': 5})
     chk.assumptions += [
         'installer contract: one result per offered app (a mismatch makes Vec::remove / zip misbehave; excluded as not contract-conforming)',
         'totality of serde_json (response bytes), of http/hyper (URLs, header bytes) and hangs are outside: the parser is an event returning an arbitrary Result',
         'callee contracts as in C04/C06/C08; logging off; metrics reporter results ignored (symbolic Ok/Err merged)',
     ]
+
+
+def safe_json_prefix(chk):
+    """the crate's own code in front of serde_json: the XSSI prefix stripping, on every byte string"""
+    import c15
+    from smodels import env_event
+    n = 8 if chk.tier == 'quick' else 12
+    o = chk.ob('safe-json-prefix', 'parse_safe_json on every response body of up to %d bytes (every byte value): never panics; hands serde_json the body without its first 5 bytes iff the body starts with the 5 bytes )]}\'\\n, else the whole body; returns serde_json\'s answer unchanged' % n)
+    ex = c15.real_builder_executor(chk, dict(unroll=n + 4))
+    D = Decide(chk, ex, o, cross=False)
+    ex.model_patterns.insert(0, (re.compile(r'(^|::)from_slice(::<.*>)?$'), lambda ex_, st, args, dty, canon: env_event(ex_, st, 'serde_json::from_slice', (ex_.snapshot(st, args[0]),), dty)))
+    fn = find_fn(ex, 'parse_safe_json')
+    ln = z3.Int('body.len')
+    ex.axioms['body.len'] = z3.And(ln >= 0, ln <= n)
+    bs = []
+    for i in range(n):
+        b = z3.Int('body.b%d' % i)
+        ex.axioms['body.b%d' % i] = z3.And(b >= 0, b <= 255)
+        bs.append(b)
+    res = ex.run_fn(fn, [Obj('bstr', (ln, tuple(bs)))], State())
+    D.no_bad_status(res)
+    PRE = [41, 93, 125, 39, 10]
+    has = z3.And(ln >= 5, *[bs[i] == PRE[i] for i in range(5)])
+    cover = set()
+    for st in res:
+        if st.status != 'done':
+            continue
+        evs = [e for e in st.trace if e.kind == 'env']
+        if [e.name for e in evs] != ['serde_json::from_slice']:
+            D.failed = D.failed or ('violated', 'serde_json is not called exactly once: %s' % [e.name for e in evs], None, st)
+            continue
+        a = evs[0].args[0]
+        a = a[2] if isinstance(a, tuple) else a
+        a = smodels.deref_all(ex, st, a)
+        if not (isinstance(a, Obj) and a.kind == 'bstr'):
+            D.failed = D.failed or ('inconclusive', 'argument of from_slice is %r' % (a,), None, st)
+            continue
+        aln, abs_ = a.data
+        stripped = z3.And(aln == ln - 5, *[z3.Implies(i < ln - 5, abs_[i] == bs[i + 5]) for i in range(n - 5)])
+        whole = z3.And(aln == ln, *[z3.Implies(i < ln, abs_[i] == bs[i]) for i in range(n)])
+        D.require(st, z3.If(has, stripped, whole), 'serde_json gets the body minus the prefix iff the prefix is there')
+        cover.add('prefix' if dval(ex, st, has) == 1 else 'plain' if dval(ex, st, has) == 0 else 'undecided')
+        if not ex.veq(st.result, Tree({}, evs[0].out, None)) and getattr(st.result, 'origin', None) != evs[0].out:
+            D.failed = D.failed or ('violated', 'the parser\'s answer is not returned unchanged', None, st)
+    if not {'prefix', 'plain'} <= cover:
+        D.failed = D.failed or ('inconclusive', 'vacuous: %s' % sorted(cover), None, None)
+    f = D.done()
+    if f and f[0] == 'violated':
+        o.key = o.name
+        if f[2] is not None:
+            L = mval(f[2], ln)
+            o.cex = {'body_bytes': [mval(f[2], bs[i]) for i in range(min(L, n))]}
+    chk.absorb(ex)
 
 
 def tail_assume(mode):
@@ -154,8 +212,11 @@ if __name__ == '__main__':
     chk = Check('C14')
     try:
         run(chk)
-    except Inconclusive as e:
+    except Exception as e:          # nothing the engine cannot digest may look like a verdict: exit 2
+        import traceback
         o = chk.ob('engine', 'executor could not interpret the code')
         o.status = 'inconclusive'
-        o.detail = str(e)
+        o.detail = ('%s: %s' % (type(e).__name__, e)) if not isinstance(e, Inconclusive) else str(e)
+        if not isinstance(e, Inconclusive):
+            o.detail += ' | ' + ' <- '.join(l.strip() for l in traceback.format_exc().strip().split('\n')[-7:-1:2])
     sys.exit(chk.finish())
